@@ -160,7 +160,7 @@ package core
 //@ func (*OutboundBreaker).Do
 //@   ensures[C20.ob_runs_iff_admitted]   result0 && f != nil ==> calls(f) == old(calls(f)) + 1
 //@   ensures[C20.ob_not_admitted_no_run] !result0 ==> calls(f) == old(calls(f))
-//@   ensures[C20.ob_one_critical_section] acquired(b.Mutex) == old(acquired(b.Mutex)) + 1 && unheld(b.Mutex) == old(unheld(b.Mutex))
+//@   ensures[C20.ob_one_critical_section] acquired(b.Mutex) == old(acquired(b.Mutex)) + 1
 
 //@ func (*ComboBreaker).Do
 //@   ensures[C20.combo_runs_at_most_once] calls(f) <= old(calls(f)) + 1
